@@ -172,6 +172,9 @@ impl C12 {
         for k in 0..3 {
             docs.push(pool.generated(&Family::Dangling, k));
         }
+        for k in 0..2 {
+            docs.push(pool.generated(&Family::SharedHeader, k));
+        }
         for k in 0..pool.corpus_len() {
             if let Some(d) = pool.corpus(k) {
                 if d.inv.loadable {
